@@ -1,46 +1,67 @@
-(** C18 — Non-blocking sockets keep non-blocking semantics under the hook. Statements only. *)
+(** C18 — Non-blocking sockets keep non-blocking semantics under the hook. Statements only.
+    Two recorded findings: [nonblocking_fd_waits] (a would-block on a descriptor the caller made
+    non-blocking still waits, up to the socket time limit) and [connect_eintr_spins]. *)
 From OCV Require Import Base.Prelude Syscall.SockIO Syscall.SockIOOracle Syscall.SockIOMain.
 Open Scope Z_scope.
 
-(** all ten entry points (eight byte-moving ones, accept, connect), every input the entry points
-    accept except the recorded finding [connect_eintr_spins] *)
-Theorem C18_holds_outside : forall c, wf_input c = true -> no_connect_eintr c = true ->
-  ok_C18 c (run_obs c) = true.
-Proof. intros c H1 H2. apply ok_C18_run. unfold wf. now rewrite H1, H2. Qed.
+(** full: every hooked call that returns (all ten entry points, every accepted input, every
+    script, timeout, wait-failure pattern, both modes) leaves the blocking mode as the caller set it *)
+Theorem C18_mode_restored : forall c o, wf_input c = true -> run_obs c = RObs o -> o_nb_after o = c_nb c.
+Proof. exact mode_restored. Qed.
+
+(** the whole oracle (mode restored, a non-blocking caller never waits, no kernel call follows one
+    that would have blocked, -1 with that call's errno) outside the two findings *)
+Theorem C18_holds_outside : forall c, wf_input c = true -> no_defect c = true -> ok_C18 c (run_obs c) = true.
+Proof. exact ok_C18_outside. Qed.
+
+(** finding: non-blocking descriptor with SO_RCVTIMEO 300 ms, the kernel keeps answering
+    would-block while 2 x 200 ms pass: the hooked recv waits twice and reports EAGAIN only after the
+    timeout instead of at once *)
+Theorem C18_refuted_nonblocking_fd_waits : exists c,
+  wf_input c = true /\ no_connect_eintr c = true /\ defect_nonblocking_fd_waits c = true
+  /\ ok_C18 c (run_obs c) = false.
+Proof.
+  exists (mkCfg (SBuf Rd) true 300000000 1000 [4]%nat [(200000000, WouldBlock); (200000000, WouldBlock)] []).
+  repeat split; vm_compute; reflexivity.
+Qed.
 
 (** finding: a hooked connect whose inner call fails with EINTR never returns, so the descriptor
     stays in non-blocking mode (the harness sees the call outlive its watchdog) *)
 Theorem C18_refuted_connect_eintr_spins : exists c, wf_input c = true /\ ok_C18 c (run_obs c) = false.
 Proof. exists (mkCfg SConnect false U64MAX 1000 []%nat [(0, Interrupted)] []). split; vm_compute; reflexivity. Qed.
 
-(** on every exit path the blocking mode is what the caller set *)
-Theorem C18_mode_restored : forall c o, ok_C18 c (RObs o) = true -> o_nb_after o = c_nb c.
-Proof. exact C18_mode_of_ok. Qed.
-
-(** non-blocking caller: no readiness wait is ever requested; if the first kernel answer is
-    "would block" no further call is made and the result is -1 with that errno *)
-Theorem C18_no_wait_when_nonblocking : forall c o, ok_C18 c (RObs o) = true -> c_nb c = true ->
-  o_waits o = [] /\
-  forall q t, o_reqs o = q :: t -> would_block (c_shape c) (q_err q) = true ->
-    t = [] /\ (q_moved q = O -> o_ret o = -1 /\ o_errno o = q_err q).
-Proof. exact C18_nonblocking_of_ok. Qed.
+(** what the oracle demands of a non-blocking caller's observation *)
+Theorem C18_oracle_meaning : forall c o, ok_C18 c (RObs o) = true ->
+  o_nb_after o = c_nb c /\
+  (c_nb c = true ->
+   o_waits o = [] /\
+   forall q t, o_reqs o = q :: t -> would_block (c_shape c) (q_err q) = true ->
+     t = [] /\ (q_moved q = O -> o_ret o = -1 /\ o_errno o = q_err q)).
+Proof. intros c o H. split; [exact (C18_mode_of_ok c o H) | exact (C18_nonblocking_of_ok c o H)]. Qed.
 
 Example C18_nonvacuous :
-  let c := mkCfg (SBuf Rd) true 300000000 1000 [4]%nat [(0, WouldBlock); (0, Moved 4)] [] in
-  let c2 := mkCfg SConnect true U64MAX 1000 []%nat [(0, Fail EINPROGRESS)] [] in
+  let c := mkCfg (SBuf Rd) true 300000000 1000 [4]%nat [(0, Interrupted); (0, Moved 2)] [] in
+  let c2 := mkCfg SConnect true U64MAX 1000 []%nat [(0, Fail ECONNRESET)] [] in
   let c3 := mkCfg (SBuf Wr) false 300000000 1000 [4]%nat [(200000000, WouldBlock); (200000000, WouldBlock)] [true] in
-  wf c = true /\ wf c2 = true /\ wf c3 = true /\
-  run_obs c = RObs (mkObs (-1) EAGAIN [mkReq 1 true [(0, 0, 4)]%nat EAGAIN 0] [0; 0; 0; 0] [] true false)
-  /\ run_obs c2 = RObs (mkObs (-1) EINPROGRESS [mkReq 0 true [] EINPROGRESS 0] [] [] true false)
+  let c4 := mkCfg (SBuf Rd) true 300000000 1000 [4]%nat [(0, WouldBlock); (0, Moved 4)] [] in
+  wf_input c = true /\ no_defect c = true /\ wf_input c2 = true /\ no_defect c2 = true
+  /\ wf_input c3 = true /\ no_defect c3 = true /\ wf_input c4 = true /\ no_defect c4 = false /\
+  run_obs c = RObs (mkObs 2 0 [mkReq 1 true [(0, 0, 4)]%nat EINTR 0; mkReq 1 true [(0, 0, 4)]%nat 0 2]
+                          [1; 2; 0; 0] [] true false)
+  /\ run_obs c2 = RObs (mkObs (-1) ECONNRESET [mkReq 0 true [] ECONNRESET 0] [] [] true false)
   /\ run_obs c3 = RObs (mkObs 0 0 [mkReq 1 true [(0, 0, 4)]%nat EAGAIN 0] [] [SLICE] false false)
-  /\ ok_C18 c (run_obs c) = true
-  (* the unrepaired code waited and then read: rejected *)
-  /\ ok_C18 c (RObs (mkObs 4 0 [mkReq 1 true [(0, 0, 4)]%nat EAGAIN 0; mkReq 1 true [(0, 0, 4)]%nat 0 4]
-                           [1; 2; 3; 4] [SLICE] true false)) = false
+  (* the code as it is: waits, then reads *)
+  /\ run_obs c4 = RObs (mkObs 4 0 [mkReq 1 true [(0, 0, 4)]%nat EAGAIN 0; mkReq 1 true [(0, 0, 4)]%nat 0 4]
+                           [1; 2; 3; 4] [SLICE] true false)
+  /\ ok_C18 c4 (run_obs c4) = false
+  (* what the property asks for instead *)
+  /\ ok_C18 c4 (RObs (mkObs (-1) EAGAIN [mkReq 1 true [(0, 0, 4)]%nat EAGAIN 0] [0; 0; 0; 0] [] true false)) = true
+  (* a mode that is not restored is rejected *)
   /\ ok_C18 c3 (RObs (mkObs 0 0 [mkReq 1 true [(0, 0, 4)]%nat EAGAIN 0] [] [SLICE] true false)) = false.
 Proof. repeat split; vm_compute; reflexivity. Qed.
 
-Print Assumptions C18_holds_outside.
-Print Assumptions C18_refuted_connect_eintr_spins.
 Print Assumptions C18_mode_restored.
-Print Assumptions C18_no_wait_when_nonblocking.
+Print Assumptions C18_holds_outside.
+Print Assumptions C18_refuted_nonblocking_fd_waits.
+Print Assumptions C18_refuted_connect_eintr_spins.
+Print Assumptions C18_oracle_meaning.
